@@ -327,6 +327,10 @@ def stream_configs(ctx):
   cfgs.append(dict({'rules': [('agg.one', 'x.a', 'sum'), ('agg.all', 'x.*', 'sum')], 'm': 2, 'forward_all': False}, **two))
   cfgs.append(dict({'rules': [('x.a', 'x.a', 'sum'), ('agg.all', 'x.*', 'sum')], 'm': 1, 'forward_all': True}, **two))
   cfgs.append({'rules': [('x.a', 'x.a', 'sum')], 'm': 1, 'forward_all': False, 'wbf': 5})
+  # a received series that is merely NAMED like an aggregate some other series feeds (it matches no rule itself):
+  # forwarding must not depend on which aggregate buffers happen to be alive
+  cfgs.append({'rules': [('agg.one', 'x.a', 'sum')], 'm': 1, 'forward_all': True, 'inputs': ('x.a', 'agg.one'),
+               'kinds': ('now', 'late3')})
   # the rules file is edited while series are live: same patterns, another method
   cfgs.append({'rules': [('agg.<p>', '<p>.*', 'sum')], 'alt_rules': [('agg.<p>', '<p>.*', 'avg')], 'm': 2, 'inputs': ('x.a',),
                'kinds': ('now', 'prev')})
